@@ -6,18 +6,23 @@ C47 — The circuit breaker follows its state machine.
  requests, rejects every call while open until the open timeout passes, admits at most the
  configured number of concurrent probes while half-open, and closes again when probes succeed."
 
-Model: Model/C47.lean.  Two granularities: the call level (`cstep`: acquire | outcome+record+release,
-any number of concurrent callers) and the atomic level (`fstep`: one step per shared-memory
-access, as `tryAcquire` and `record` run them without holding `b.mu` from the read to the
-transition).  Spec: Spec/C47.lean (textbook state machine over a queue-shaped rolling window).
+Model: Model/C47.lean (the code after fix 42b281d).  Two granularities: the call level (`cstep`:
+acquire | outcome+record+release, any number of concurrent callers) and the atomic level (`fstep`:
+one step per shared-memory access: the unlocked `State()` read, and `openToHalfOpen()`,
+`halfOpenToClosed()`, `toOpen()`, `buckets.add`, the semaphore select each as one critical section).
+Spec: Spec/C47.lean (textbook state machine over a queue-shaped rolling window).
 
-Result: at the atomic level the property is FALSE of the current code (`C47_refuted`): a caller that
-read `Open ∧ now ≥ openUntil` executes `toHalfOpen()` after another probe has already re-opened the
-breaker, so the breaker leaves Open before its timeout; likewise a stale `toClosed()` takes it from
-Open to Closed, an edge the state machine does not have.  `C47_partial`: at the call level (every
-`tryAcquire` and every `record` atomic, callers still overlapping) the model IS the spec machine
-for all histories, and at the atomic level the half-open bound, the open rule and the reject rule
-hold for every schedule.
+Result: `C47_holds` — at the atomic level, for every schedule and any number of threads, every
+state change follows the state machine (Open is left only for HalfOpen and only once `openUntil`
+has passed; `openUntil` is stable while Open), the half-open bound holds, `record` opens exactly
+under the window condition, a caller checked against `Open ∧ now < openUntil` is rejected.
+`C47_call_level`: at the call level the model IS the spec machine for all histories; a single
+thread's atomic steps run to completion are exactly the call-level operations (`atomic_acquire_eq`,
+`atomic_finish_eq`).  Stated limit (`C47_residual`): the admission decision is taken on an unlocked
+read, so a caller that read HalfOpen can still win a half-open token right after a concurrent probe
+re-opened the breaker (bounded by halfOpenMaxCalls, changes no state).
+History: before 42b281d the transitions did not re-validate the source state and this statement was
+refuted (stale toHalfOpen()/toClosed(); finding C47-F1, now fixed; corpus/C47 keeps the witnesses).
 -/
 import GoaktVerif.Model.C47
 import GoaktVerif.Spec.C47
@@ -29,9 +34,10 @@ open GoaktVerif.Model.C47 GoaktVerif.Spec.C47
 
 /-! ### the statement, at the atomic level -/
 
-/-- the edges of the breaker's state machine, with the guard of the Open → HalfOpen edge -/
+/-- the edges of the breaker's state machine: Closed→Open, HalfOpen→Open, HalfOpen→Closed, and
+    Open→HalfOpen only once `openUntil` has passed; while it stays Open `openUntil` does not move -/
 def LegalEdge (now : Int) (b b' : Br) : Prop :=
-  b'.state = b.state ∨
+  (b'.state = b.state ∧ (b.state = .opened → b'.openUntil = b.openUntil)) ∨
   (b.state = .closed ∧ b'.state = .opened) ∨
   (b.state = .halfOpen ∧ b'.state = .opened) ∨
   (b.state = .halfOpen ∧ b'.state = .closed) ∨
@@ -54,67 +60,112 @@ def ClauseOpen (cf : Conf) (s0 : FSys) : Prop :=
   ∀ s tid o s' tok t, FReach cf s0 s → s.pcs[tid]? = some (.recEval tok t) → fstep cf s (.thr tid o) = some s' →
     (s'.b.state = .opened ↔ (s.b.state = .opened ∨ (enough cf t = true ∧ tripped cf t = true)))
 
-/-- (4) a caller whose check finds `Open ∧ now < openUntil` is rejected and changes nothing -/
+/-- (4) a caller whose locked check finds `Open ∧ now < openUntil` is rejected and changes nothing -/
 def ClauseReject (cf : Conf) (s0 : FSys) : Prop :=
-  ∀ s tid o s', FReach cf s0 s → s.pcs[tid]? = some .acqCheck → s.now < s.b.openUntil →
+  ∀ s tid o s', FReach cf s0 s → s.pcs[tid]? = some .acqOpen → s.b.state = .opened → s.now < s.b.openUntil →
     fstep cf s (.thr tid o) = some s' → s'.b = s.b ∧ s'.pcs[tid]? = some (.done false)
 
-/-- (5) admission outside Closed needs a token: a thread inside `fn` without a token read `Closed` -/
+/-- (5) a HalfOpen breaker is closed only by a `record` whose window had enough samples below the
+        threshold (the thread is at `recToClosed`) -/
+def ClauseClose (cf : Conf) (s0 : FSys) : Prop :=
+  ∀ s l s', FReach cf s0 s → fstep cf s l = some s' → s.b.state = .halfOpen → s'.b.state = .closed →
+    ∃ tid o tok, l = .thr tid o ∧ s.pcs[tid]? = some (.recToClosed tok)
+
 def C47_full : Prop :=
   ∀ (cf : Conf) (t0 : Int) (n : Nat), ConfOk cf →
     ClauseEdges cf (FSys.new cf t0 n) ∧ ClauseProbes cf (FSys.new cf t0 n) ∧
-    ClauseOpen cf (FSys.new cf t0 n) ∧ ClauseReject cf (FSys.new cf t0 n)
+    ClauseOpen cf (FSys.new cf t0 n) ∧ ClauseReject cf (FSys.new cf t0 n) ∧ ClauseClose cf (FSys.new cf t0 n)
 
-/-! ### refutation: the stale `toHalfOpen()` -/
-
-/-- rate 1/1, minRequests 1, openTimeout 1000, one bucket, one probe -/
-def wcf : Conf := ⟨1, 1, 1, 1000, 100000, 1, 1⟩
-
-/-- thread 0 fails and opens the breaker at t=0 (openUntil = 1000); the clock moves to 1005;
-    thread 1 reads Open, sees the timeout has passed and is about to call toHalfOpen();
-    thread 2 does the same, probes, fails and RE-OPENS the breaker (openUntil = 2005) -/
-def wprefix : List FLabel :=
-  [.thr 0 .fail, .thr 0 .fail, .thr 0 .fail, .thr 0 .fail, .tick 1005,
-   .thr 1 .ok, .thr 1 .ok,
-   .thr 2 .fail, .thr 2 .fail, .thr 2 .fail, .thr 2 .fail, .thr 2 .fail, .thr 2 .fail, .thr 2 .fail]
-
-def wstate : FSys := frun wcf (FSys.new wcf 0 3) wprefix
-
-theorem frun_reach (cf : Conf) (s0 : FSys) (ls : List FLabel) : ∀ s, FReach cf s0 s → FReach cf s0 (frun cf s ls) := by
-  induction ls with
-  | nil => intro s h; exact h
-  | cons l ls ih =>
-    intro s h
-    simp only [frun]
-    cases hs : fstep cf s l with
-    | none => simpa [hs] using ih s h
-    | some s' => simpa [hs] using ih s' (FReach.step l h hs)
-
-theorem C47_refuted : ¬ C47_full := by
-  intro h
-  have hok : ConfOk wcf := by decide
-  have h1 := (h wcf 0 3 hok).1
-  have hr : FReach wcf (FSys.new wcf 0 3) wstate := frun_reach _ _ _ _ FReach.init
-  -- thread 1 now resumes with its stale toHalfOpen(): Open (openUntil 2005) → HalfOpen at now = 1005
-  have hstep : fstep wcf wstate (.thr 1 .ok) = some (frun wcf wstate [.thr 1 .ok]) := by decide
-  have := h1 wstate (.thr 1 .ok) _ hr hstep
-  revert this
-  decide
-
--- what the witness looks like (TEST by evaluation)
-example : (wstate.b.state, wstate.now, wstate.b.openUntil) = (.opened, 1005, 2005) := by decide
-example : (frun wcf wstate [.thr 1 .ok]).b.state = .halfOpen := by decide
-
-/-! ### what does hold at the atomic level, for every schedule -/
-
-theorem clauseProbes_holds (cf : Conf) (t0 : Int) (n : Nat) : ClauseProbes cf (FSys.new cf t0 n) :=
-  fun s h => semInv_reach cf t0 n s h
+/-! ### proofs -/
 
 theorem transitionTo_state (cf : Conf) (now : Int) (t : St) (b : Br) : (transitionTo cf now t b).state = t := by
   unfold transitionTo
   split
   · assumption
   · cases t <;> rfl
+
+theorem legal_refl (now : Int) (b : Br) : LegalEdge now b b := Or.inl ⟨rfl, fun _ => rfl⟩
+
+theorem legal_same (now : Int) (b b' : Br) (h1 : b'.state = b.state) (h2 : b'.openUntil = b.openUntil) :
+    LegalEdge now b b' := Or.inl ⟨h1, fun _ => h2⟩
+
+theorem legal_toOpen (cf : Conf) (now : Int) (b : Br) : LegalEdge now b (transitionTo cf now .opened b) := by
+  unfold transitionTo LegalEdge
+  cases hs : b.state <;> simp [hs]
+
+theorem legal_openToHalfOpen (now : Int) (b : Br) : LegalEdge now b (openToHalfOpen now b).2 := by
+  unfold openToHalfOpen LegalEdge
+  cases hs : b.state
+  · simp [hs]
+  · by_cases hlt : now < b.openUntil
+    · simp [hlt, hs]
+    · have : b.openUntil ≤ now := by omega
+      simp [hlt, this, hs]
+  · simp [hs]
+
+theorem legal_halfOpenToClosed (now : Int) (b : Br) : LegalEdge now b (halfOpenToClosed now b) := by
+  unfold halfOpenToClosed LegalEdge
+  cases hs : b.state <;> simp [hs]
+
+/-- every atomic step of every thread is a legal edge (no reachability assumption needed) -/
+theorem pcStep_legal (cf : Conf) (now : Int) (b b' : Br) (o : Outcome) (pc pc' : Pc)
+    (h : pcStep cf now b o pc = some (b', pc')) : LegalEdge now b b' := by
+  cases pc with
+  | idle =>
+    simp only [pcStep] at h
+    cases hs : b.state <;> simp only [hs, Option.some.injEq, Prod.mk.injEq] at h <;>
+      (obtain ⟨rfl, _⟩ := h; exact legal_refl _ _)
+  | acqOpen =>
+    simp only [pcStep] at h
+    cases hr : (openToHalfOpen now b).1 <;> simp only [hr, Option.some.injEq, Prod.mk.injEq] at h <;>
+      (obtain ⟨rfl, _⟩ := h; exact legal_openToHalfOpen now b)
+  | acqSem =>
+    simp only [pcStep, trySem] at h
+    split at h <;> simp only [if_true, Bool.false_eq_true, if_false, Option.some.injEq, Prod.mk.injEq] at h <;>
+      (obtain ⟨rfl, _⟩ := h; exact legal_same _ _ _ rfl rfl)
+  | running tok =>
+    simp only [pcStep] at h
+    cases o <;> simp only [Option.some.injEq, Prod.mk.injEq] at h <;>
+      (obtain ⟨rfl, _⟩ := h; exact legal_same _ _ _ rfl rfl)
+  | recEval tok t =>
+    simp only [pcStep] at h
+    split at h
+    · simp only [Option.some.injEq, Prod.mk.injEq] at h; obtain ⟨rfl, _⟩ := h; exact legal_refl _ _
+    · split at h
+      · simp only [Option.some.injEq, Prod.mk.injEq] at h; obtain ⟨rfl, _⟩ := h; exact legal_toOpen cf now b
+      · simp only [Option.some.injEq, Prod.mk.injEq] at h; obtain ⟨rfl, _⟩ := h; exact legal_refl _ _
+  | recToClosed tok =>
+    simp only [pcStep, Option.some.injEq, Prod.mk.injEq] at h
+    obtain ⟨rfl, _⟩ := h
+    exact legal_halfOpenToClosed now b
+  | rel tok =>
+    simp only [pcStep, Option.some.injEq, Prod.mk.injEq] at h
+    obtain ⟨rfl, _⟩ := h
+    cases tok
+    · exact legal_refl _ _
+    · exact legal_same _ _ _ rfl rfl
+  | done a => simp [pcStep] at h
+
+theorem clauseEdges_holds (cf : Conf) (s0 : FSys) : ClauseEdges cf s0 := by
+  intro s l s' _ hs
+  cases l with
+  | tick d => simp only [fstep, Option.some.injEq] at hs; subst hs; exact legal_refl _ _
+  | thr tid o =>
+    simp only [fstep] at hs
+    cases hp : s.pcs[tid]? with
+    | none => simp [hp] at hs
+    | some pc =>
+      simp only [hp] at hs
+      cases hst : pcStep cf s.now s.b o pc with
+      | none => simp [hst] at hs
+      | some r =>
+        obtain ⟨b', pc'⟩ := r
+        simp only [hst, Option.some.injEq] at hs
+        subst hs
+        exact pcStep_legal cf s.now s.b b' o pc pc' hst
+
+theorem clauseProbes_holds (cf : Conf) (t0 : Int) (n : Nat) : ClauseProbes cf (FSys.new cf t0 n) :=
+  fun s h => semInv_reach cf t0 n s h
 
 theorem clauseOpen_holds (cf : Conf) (s0 : FSys) : ClauseOpen cf s0 := by
   intro s tid o s' tok t _ hp hs
@@ -136,8 +187,10 @@ theorem clauseOpen_holds (cf : Conf) (s0 : FSys) : ClauseOpen cf s0 := by
       simp [transitionTo_state]
 
 theorem clauseReject_holds (cf : Conf) (s0 : FSys) : ClauseReject cf s0 := by
-  intro s tid o s' _ hp hlt hs
-  simp only [fstep, hp, pcStep, hlt, if_true, Option.some.injEq] at hs
+  intro s tid o s' _ hp hst hlt hs
+  have hr : openToHalfOpen s.now s.b = (.opened, s.b) := by
+    unfold openToHalfOpen; simp [hst, hlt]
+  simp only [fstep, hp, pcStep, hr, Option.some.injEq] at hs
   subst hs
   refine ⟨rfl, ?_⟩
   have : tid < s.pcs.length := by
@@ -146,10 +199,171 @@ theorem clauseReject_holds (cf : Conf) (s0 : FSys) : ClauseReject cf s0 := by
     · rw [List.getElem?_eq_none h] at hp; cases hp
   simp [this]
 
-/-- atomic level, every schedule: clauses (2), (3), (4) of the full statement hold -/
-theorem C47_atomic_partial (cf : Conf) (t0 : Int) (n : Nat) :
-    ClauseProbes cf (FSys.new cf t0 n) ∧ ClauseOpen cf (FSys.new cf t0 n) ∧ ClauseReject cf (FSys.new cf t0 n) :=
-  ⟨clauseProbes_holds cf t0 n, clauseOpen_holds cf _, clauseReject_holds cf _⟩
+theorem clauseClose_holds (cf : Conf) (s0 : FSys) : ClauseClose cf s0 := by
+  intro s l s' _ hs hho hcl
+  cases l with
+  | tick d =>
+    simp only [fstep, Option.some.injEq] at hs; subst hs
+    rw [hho] at hcl; cases hcl
+  | thr tid o =>
+    simp only [fstep] at hs
+    cases hp : s.pcs[tid]? with
+    | none => simp [hp] at hs
+    | some pc =>
+      simp only [hp] at hs
+      cases hst : pcStep cf s.now s.b o pc with
+      | none => simp [hst] at hs
+      | some r =>
+        obtain ⟨b', pc'⟩ := r
+        simp only [hst, Option.some.injEq] at hs
+        subst hs
+        simp only at hcl
+        cases pc with
+        | recToClosed tok => exact ⟨tid, o, tok, rfl, hp⟩
+        | idle =>
+          simp only [pcStep, hho, Option.some.injEq, Prod.mk.injEq] at hst
+          obtain ⟨rfl, _⟩ := hst; rw [hho] at hcl; cases hcl
+        | acqOpen =>
+          have hr : openToHalfOpen s.now s.b = (.halfOpen, s.b) := by unfold openToHalfOpen; simp [hho]
+          simp only [pcStep, hr, Option.some.injEq, Prod.mk.injEq] at hst
+          obtain ⟨rfl, _⟩ := hst; rw [hho] at hcl; cases hcl
+        | acqSem =>
+          simp only [pcStep, trySem] at hst
+          split at hst <;> simp only [if_true, Bool.false_eq_true, if_false, Option.some.injEq, Prod.mk.injEq] at hst <;>
+            (obtain ⟨rfl, _⟩ := hst; (try simp only at hcl); rw [hho] at hcl; cases hcl)
+        | running tok =>
+          simp only [pcStep] at hst
+          cases o <;> simp only [Option.some.injEq, Prod.mk.injEq] at hst <;>
+            (obtain ⟨rfl, _⟩ := hst; (try simp only at hcl); rw [hho] at hcl; cases hcl)
+        | recEval tok t =>
+          simp only [pcStep] at hst
+          split at hst
+          · simp only [Option.some.injEq, Prod.mk.injEq] at hst; obtain ⟨rfl, _⟩ := hst; rw [hho] at hcl; cases hcl
+          · split at hst
+            · simp only [Option.some.injEq, Prod.mk.injEq] at hst; obtain ⟨rfl, _⟩ := hst
+              rw [transitionTo_state] at hcl; cases hcl
+            · simp only [Option.some.injEq, Prod.mk.injEq] at hst; obtain ⟨rfl, _⟩ := hst; rw [hho] at hcl; cases hcl
+        | rel tok =>
+          simp only [pcStep, Option.some.injEq, Prod.mk.injEq] at hst
+          obtain ⟨rfl, _⟩ := hst
+          cases tok <;> (simp only [release] at hcl; try simp only [Bool.false_eq_true, if_false, if_true] at hcl; rw [hho] at hcl; cases hcl)
+        | done a => simp [pcStep] at hst
+
+/-- THE PROPERTY, at the atomic level: any options, any number of threads, every schedule -/
+theorem C47_holds : C47_full :=
+  fun cf t0 n _ => ⟨clauseEdges_holds cf _, clauseProbes_holds cf t0 n, clauseOpen_holds cf _,
+    clauseReject_holds cf _, clauseClose_holds cf _⟩
+
+theorem frun_reach (cf : Conf) (s0 : FSys) (ls : List FLabel) : ∀ s, FReach cf s0 s → FReach cf s0 (frun cf s ls) := by
+  induction ls with
+  | nil => intro s h; exact h
+  | cons l ls ih =>
+    intro s h
+    simp only [frun]
+    cases hs : fstep cf s l with
+    | none => simpa [hs] using ih s h
+    | some s' => simpa [hs] using ih s' (FReach.step l h hs)
+
+/-! ### the old race no longer exists in the model; the stated limit does -/
+
+/-- rate 1/1, minRequests 1, openTimeout 1000, one bucket, one probe -/
+def wcf : Conf := ⟨1, 1, 1, 1000, 100000, 1, 1⟩
+
+/-- the schedule that refuted the statement before 42b281d: thread 0 opens the breaker
+    (openUntil 1000); clock 1005; thread 1 reads Open and is preempted; thread 2 half-opens,
+    probes, fails, re-opens (openUntil 2005); thread 1 resumes -/
+def wprefix : List FLabel :=
+  [.thr 0 .fail, .thr 0 .fail, .thr 0 .fail, .thr 0 .fail, .tick 1005,
+   .thr 1 .ok,
+   .thr 2 .fail, .thr 2 .fail, .thr 2 .fail, .thr 2 .fail, .thr 2 .fail, .thr 2 .fail]
+
+def wstate : FSys := frun wcf (FSys.new wcf 0 3) wprefix
+
+-- TEST by evaluation: thread 1's `openToHalfOpen()` now re-validates and rejects; the breaker stays Open until 2005
+example : (wstate.b.state, wstate.now, wstate.b.openUntil, wstate.pcs[1]?) = (.opened, 1005, 2005, some .acqOpen) := by decide
+example : ((frun wcf wstate [.thr 1 .ok]).b.state, (frun wcf wstate [.thr 1 .ok]).pcs[1]?) = (.opened, some (.done false)) := by decide
+
+/-- STATED LIMIT (residual of the unlocked admission read): there is a reachable configuration in
+    which a thread is admitted with a half-open token while the breaker is Open and the open timeout
+    has NOT passed: it read HalfOpen before a concurrent probe failed and re-opened the breaker. -/
+theorem C47_residual :
+    ∃ (s s' : FSys) (tid : Nat), FReach wcf (FSys.new wcf 0 3) s ∧ fstep wcf s (.thr tid .ok) = some s' ∧
+      s.b.state = .opened ∧ s.now < s.b.openUntil ∧ s'.pcs[tid]? = some (.running true) := by
+  -- thread 0 opens; clock 1005; thread 2 half-opens and starts probing; thread 1 reads HalfOpen;
+  -- thread 2 fails, re-opens and releases; thread 1 takes the token
+  let pre : List FLabel :=
+    [.thr 0 .fail, .thr 0 .fail, .thr 0 .fail, .thr 0 .fail, .tick 1005,
+     .thr 2 .fail, .thr 2 .fail, .thr 2 .fail,
+     .thr 1 .ok,
+     .thr 2 .fail, .thr 2 .fail, .thr 2 .fail]
+  refine ⟨frun wcf (FSys.new wcf 0 3) pre, frun wcf (FSys.new wcf 0 3) (pre ++ [.thr 1 .ok]), 1,
+    frun_reach _ _ _ _ FReach.init, by decide, by decide, by decide, by decide⟩
+
+/-! ### a single thread's atomic steps, run to completion, ARE the call-level operations -/
+
+/-- run one thread alone for `fuel` atomic steps (clock fixed), stopping early when it has no step -/
+def runAlone (cf : Conf) (now : Int) (o : Outcome) : Nat → Br × Pc → Br × Pc
+  | 0, r => r
+  | n + 1, r =>
+    match pcStep cf now r.1 o r.2 with
+    | none => r
+    | some r' => runAlone cf now o n r'
+
+/-- the acquire phase stops at `running` or `done false` -/
+def stopAcq (cf : Conf) (now : Int) (o : Outcome) : Nat → Br × Pc → Br × Pc
+  | 0, r => r
+  | n + 1, r =>
+    match r.2 with
+    | .running _ => r
+    | .done _ => r
+    | _ =>
+      match pcStep cf now r.1 o r.2 with
+      | none => r
+      | some r' => stopAcq cf now o n r'
+
+/-- `tryAcquire` = the atomic acquire steps of one undisturbed thread (≤ 3 of them) -/
+theorem atomic_acquire_eq (cf : Conf) (now : Int) (o : Outcome) (b : Br) :
+    stopAcq cf now o 3 (b, .idle) =
+      ((tryAcquire cf now b).2, if (tryAcquire cf now b).1.1 then .running (tryAcquire cf now b).1.2 else .done false) := by
+  unfold tryAcquire
+  cases hs : b.state with
+  | closed => simp [stopAcq, pcStep, hs]
+  | halfOpen =>
+    simp only [stopAcq, pcStep, hs, trySem]
+    by_cases hc : b.sem < cf.hmax <;> simp [hc, stopAcq]
+  | opened =>
+    simp only [stopAcq, pcStep, hs, afterOpenCheck]
+    generalize openToHalfOpen now b = r
+    obtain ⟨st, b'⟩ := r
+    cases st with
+    | closed => simp [stopAcq]
+    | opened => simp [stopAcq]
+    | halfOpen =>
+      simp only [stopAcq, pcStep, trySem]
+      by_cases hc : b'.sem < cf.hmax <;> simp [hc, stopAcq]
+
+/-- `finish` (= record, unless cancelled, then release) = the atomic steps of one undisturbed
+    thread from `running` to `done` (≤ 4 of them) -/
+theorem atomic_finish_eq (cf : Conf) (now : Int) (o : Outcome) (tok : Bool) (b : Br) :
+    runAlone cf now o 5 (b, .running tok) = (finish cf now o tok b, .done true) := by
+  cases o with
+  | cancel => cases tok <;> simp [runAlone, pcStep, finish]
+  | ok =>
+    simp only [runAlone, pcStep, finish, record]
+    cases he : enough cf (b.w.add cf now true).2 with
+    | false => cases tok <;> simp [runAlone, pcStep]
+    | true =>
+      cases ht : tripped cf (b.w.add cf now true).2 with
+      | true => cases tok <;> simp [runAlone, pcStep]
+      | false => cases tok <;> simp [runAlone, pcStep]
+  | fail =>
+    simp only [runAlone, pcStep, finish, record]
+    cases he : enough cf (b.w.add cf now false).2 with
+    | false => cases tok <;> simp [runAlone, pcStep]
+    | true =>
+      cases ht : tripped cf (b.w.add cf now false).2 with
+      | true => cases tok <;> simp [runAlone, pcStep]
+      | false => cases tok <;> simp [runAlone, pcStep]
 
 /-! ### call level: the model IS the spec state machine, for all histories with overlapping callers -/
 
@@ -316,27 +530,21 @@ theorem acquire_probes (cf : SConf) (now : Int) (b : SBr) (h : b.probes ≤ cf.h
     · simp [hlt, h]
     · simp only [hlt, if_false]; split <;> simp <;> omega
 
-/-- What holds of the code as it is.
- (a) atomic level, EVERY schedule, any number of threads: the half-open semaphore accounting and
-     bound, the open rule of `record`'s evaluation step, the reject rule;
- (b) call level (each `tryAcquire` and each `record`+`release` indivisible, callers overlapping in
-     any way, any clock behaviour): the model of breaker.go/bucket.go refines the spec machine of
-     Spec/C47 answer by answer — ring buffer = rolling queue, semaphore = probes in flight;
- (c) that spec machine rejects while Open before `openUntil`, moves only along the textbook edges
-     (Open → HalfOpen only when `openUntil ≤ now`), opens exactly when the post-advance window has
-     `total ≥ minRequests ∧ fail·q ≥ p·total`, closes a HalfOpen breaker exactly when enough samples
-     are below the threshold, and keeps probes ≤ halfOpenMaxCalls. -/
-theorem C47_partial :
-    (∀ (cf : Conf) (t0 : Int) (n : Nat),
-      ClauseProbes cf (FSys.new cf t0 n) ∧ ClauseOpen cf (FSys.new cf t0 n) ∧ ClauseReject cf (FSys.new cf t0 n)) ∧
+/-- Call level (each `tryAcquire` and each `record`+`release` indivisible — which is what one
+    undisturbed thread's atomic steps amount to, `atomic_acquire_eq` / `atomic_finish_eq` — callers
+    overlapping in any way, any clock behaviour, any history length): the model of
+    breaker.go/bucket.go refines the spec machine of Spec/C47 answer by answer (ring buffer =
+    rolling queue, semaphore = probes in flight); and that spec machine moves only along the
+    textbook edges, rejects while Open before `openUntil`, and keeps probes ≤ halfOpenMaxCalls
+    (`observe_state` gives the exact open/close conditions on the post-advance window). -/
+theorem C47_call_level :
     (∀ (cf : Conf), ConfOk cf → ∀ (t0 : Int) (ops : List COp) (sops : List SOp), ops.mapM toSOp = some sops →
       (crun cf (Sys.new cf t0) ops).2.map toSOut = (srun (toSConf cf) (SSys.new (toSConf cf) t0) sops).2) ∧
     (∀ (cf : SConf) (now : Int) (b : SBr),
       SLegal now b (b.acquire cf now).2 ∧
       (b.state = .opened → now < b.openUntil → b.acquire cf now = ((false, false), b)) ∧
       (b.probes ≤ cf.hmax → (b.acquire cf now).2.probes ≤ cf.hmax)) :=
-  ⟨fun cf t0 n => C47_atomic_partial cf t0 n,
-   fun cf hok t0 ops sops h => (crun_refines cf hok ops sops h _ _ (sysRel_new cf hok t0)).1,
+  ⟨fun cf hok t0 ops sops h => (crun_refines cf hok ops sops h _ _ (sysRel_new cf hok t0)).1,
    fun cf now b => ⟨acquire_legal cf now b, acquire_rejects_while_open cf now b, fun h => (acquire_probes cf now b h).1⟩⟩
 
 -- non-vacuity: a history with overlapping callers that opens, half-opens and closes the breaker (TEST by evaluation)
